@@ -117,7 +117,12 @@ func (p *parser) nextFrag(first, lastDescent bool) (f Frag) {
 		case '.':
 			f = p.afterDot()
 		case '*':
-			return Wildcard('*')
+			// A * without a leading . is only a wildcard at the start of
+			// a relative path or after a descent, @.a*2 is a product.
+			if first || lastDescent {
+				return Wildcard('*')
+			}
+			p.pos--
 		case '[':
 			f = p.afterBracket()
 		case ']':
